@@ -168,6 +168,15 @@ def extract(bound):
         shutil.rmtree(d, ignore_errors=True)
 
 
+def _file_digest(rel):
+    import hashlib
+    try:
+        with open(os.path.join(REPO, rel), 'rb') as f:
+            return hashlib.sha256(f.read()).hexdigest()[:16]
+    except OSError:
+        return None
+
+
 def run(prop, cfg, tier, seed):
     bound = 4 if tier == 'thorough' else 3
     t0 = time.time()
@@ -204,7 +213,7 @@ def run(prop, cfg, tier, seed):
     os.makedirs(os.path.join(ROOT, 'replays'), exist_ok=True)
     with open(os.path.join(ROOT, 'replays', 'C04.failing.json'), 'w') as fh:
         json.dump(failing, fh)
-    infos = {'c04:' + fl: dict(file=fl, line=1, n=(sum(f['cases'] for f in fams.values()) if fl == FILES[0] else 0)) for fl in FILES}
+    infos = {'c04:' + fl: dict(file=fl, line=1, digest=_file_digest(fl), n=(sum(f['cases'] for f in fams.values()) if fl == FILES[0] else 0)) for fl in FILES}
     return dict(verdicts=verdicts, infos=infos,
                 trusted=['CPython ast.parse is the semantics of the generated equation texts', 'xmltodict / parsimonious / jinja2 (executed, not modelled)',
                          'the generated memoize returns the value of the named equation at the given time (run-spec behaviour searched natively)'],
